@@ -91,7 +91,13 @@ func (p *c19Provider) GetNodeInfo() (string, string, []service.ReplicaInfo, uint
 
 // the receive limit cmd/kevo/server.go configures (grpc.MaxRecvMsgSize among its server options),
 // 0 when it has none
-func c19ServerRecvOption() int {
+func c19ServerRecvOption() int { return c19ServerOption("MaxRecvMsgSize") }
+
+// the send limit it configures (grpc.MaxSendMsgSize), 0 when it has none: a response that carries
+// a stored value (Get, TxGet, a Scan entry with its key) must fit into it
+func c19ServerSendOption() int { return c19ServerOption("MaxSendMsgSize") }
+
+func c19ServerOption(name string) int {
 	repo := os.Getenv("VERIF_REPO")
 	if repo == "" {
 		repo = "/repo"
@@ -100,7 +106,7 @@ func c19ServerRecvOption() int {
 	if err != nil {
 		return 0
 	}
-	m := regexp.MustCompile(`grpc\.MaxRecvMsgSize\(([^)]*)\)`).FindSubmatch(src)
+	m := regexp.MustCompile(`grpc\.` + name + `\(([^)]*)\)`).FindSubmatch(src)
 	if m == nil {
 		return 0
 	}
@@ -169,6 +175,9 @@ func c19Start(c *Case) (*c19Node, error) {
 	} else if o := c19ServerRecvOption(); o > 0 {
 		opts = append(opts, grpc.MaxRecvMsgSize(o))
 		n.recvLimit = o
+	}
+	if o := c19ServerSendOption(); o > 0 {
+		opts = append(opts, grpc.MaxSendMsgSize(o))
 	}
 	n.gs = grpc.NewServer(opts...)
 	pb.RegisterKevoServiceServer(n.gs, svc)
